@@ -468,3 +468,11 @@ package stdlib
 //@   let a0 (val_at args 0)
 //@   let a1 (val_at args 1)
 //@   ensures[C12] false_only_if_decided: (=> (and (= result.1 nil.Any) (not (is_marked a0)) (not (is_marked a1)) (is_set_ty (vty a0)) (ty_eq (vty a1) (elem_ty (vty a0))) (bool_payload result.0 false)) (and (wholly_known a0) (wholly_known a1)))
+//
+// The shared Type callback of setunion / setintersection / setsubtract / setsymmetricdifference (C11): under
+// what returnTypeForValues establishes for the declared parameters (sets of any element type or dynamically
+// typed values, never null, unmarked at every depth, possibly unknown) it never panics (UnifyUnsafe assumed not to).
+//@ func stdlib.setOperationReturnType
+//@   tags C11
+//@   requires (and (slice.ok args) (<= (Slice.len args) 1048576))
+//@   requires (forall ((j Int)) (! (=> (and (trig j) (<= 0 j) (< j (Slice.len args))) (let ((a (val_at args j))) (and (wf_deep a) (not (is_null a)) (not (is_marked a)) (or (is_dyn_ty (vty a)) (is_set_ty (vty a)))))) :pattern ((trig j))))
